@@ -8,7 +8,9 @@ RULE = ('cases = (entry point, trap, dt, record); exact domain: integer records 
         'non-trivial = record not identically zero and length >= 3; distinct by digest of (site, arguments)')
 TRUSTED = [
     'Coq 8.16.1 kernel + vm_compute (no native_compute)',
-    'hand-written model coq/model/M_displacements.v; tie = correspondence check (this run) through model/K_C08.v',
+    'hand-written model coq/model/M_displacements.v; tie = correspondence check (this run) through model/K_C08.v, and, for the array-level functions, '
+    'translator/py2coq_numpy.py (re-run on every check) + the C08_*_is_source theorems: trusted there is only the translator\'s reading of each '
+    'whitelisted NumPy/SciPy call as a lib/NpList.v primitive',
     'exact arithmetic: IEEE rounding/overflow/NaN not modelled (tolerance domain measures the distance, 1e-10 relative)',
     'Q-run vs R-theorems: same polymorphic definitions; Q->R homomorphism proved for cumsum/cumtrapz/map (lib/NpList.v), parametricity for the rest',
     'scipy.integrate.cumulative_trapezoid modelled by its formula (validated by the correspondence itself)',
@@ -120,8 +122,21 @@ def gen(rng, tier):
     return out
 
 
+def regen_quadrature():
+    """re-translate eqsig/displacements.py and eqsig/im.py into coq/gen/Gen_quadrature.v (fail closed): the
+    `*_is_source` theorems of Prop_C08/Prop_C09 are then re-proved against the code that is in the repo now"""
+    import os, sys
+    try:
+        sys.path.insert(0, os.path.join(core.VERIF, 'translator'))
+        import py2coq_numpy
+        py2coq_numpy.regenerate(repo=core.REPO)
+    except Exception as e:
+        return 'py2coq_numpy: %s: %s' % (type(e).__name__, e)
+    return None
+
+
 def run(rep, rng, tier):
-    rep.prove('Prop_C08')
+    rep.prove('Prop_C08', gen_failed=regen_quadrature())
     cases = []
     for site, trap, dt, a, r, rtol in gen(rng, tier):
         if isinstance(r, ImplError):
